@@ -57,6 +57,9 @@ func genString(r *core.Rand, xmlSafe bool) string {
 	if r.Chance(1, 10) {
 		n = r.Range(100, 400)
 	}
+	if r.Chance(1, 40) {
+		return strings.Repeat("a", 40000) // an entity that compresses several hundred times
+	}
 	rs := make([]rune, n)
 	for i := range rs {
 		rs[i] = pool[r.Intn(len(pool))]
@@ -436,5 +439,42 @@ func c16(ctx *core.Ctx) {
 		if ctx.WantSample() && len(items) > 3 {
 			ctx.Sample(map[string]interface{}{"provider": prov, "default": defKind, "history": items[:4], "first_value": fmt.Sprintf("%+v", items[0].orig)})
 		}
+	}
+	// configuration in the other order: the default request content type names a vendor type whose accessor is
+	// registered only afterwards; a body without Content-Type must be read with it all the same
+	if ctx.OnlyCase < 0 && ctx.Shard == 0 {
+		const vendor = "application/vnd.verif.late+json"
+		restful.DefaultRequestContentType(vendor)
+		restful.RegisterEntityAccessor(vendor, restful.NewEntityAccessorJSON(vendor))
+		c := restful.NewContainer()
+		ws := new(restful.WebService).Path("/late")
+		var got rtEntity
+		var rerr error
+		ws.Route(ws.POST("/").To(func(req *restful.Request, resp *restful.Response) {
+			got = rtEntity{}
+			rerr = req.ReadEntity(&got)
+			resp.WriteHeader(204)
+		}))
+		c.Add(ws)
+		r := ctx.Rand(999999, "late")
+		for q := 0; q < 20; q++ {
+			orig := genEntity(r, false)
+			body, _ := json.Marshal(orig)
+			req := rt.Req{Method: "POST", Path: "/late/", Body: body, BodyLen: len(body)}
+			if q%2 == 1 {
+				req.HasCT, req.CT = true, "*/*"
+			}
+			rt.Run(c, rt.Dispatch, &req)
+			ctx.Eval(1)
+			ctx.Count("late_registered_default_type_reads", 1)
+			g, w := got, orig
+			g.XMLName, w.XMLName = xml.Name{}, xml.Name{}
+			if rerr != nil || !reflect.DeepEqual(g, w) {
+				ctx.Violation(-1, "c16:default-type-registered-late", fmt.Sprintf("DefaultRequestContentType(%q) was set before its accessor was registered; a body without Content-Type is not read back: err=%v", vendor, rerr),
+					map[string]interface{}{"content_type_present": req.HasCT, "error": fmt.Sprint(rerr)})
+				break
+			}
+		}
+		ctx.Sig("default-type-registered-late")
 	}
 }
